@@ -106,7 +106,12 @@ def build(m: RefGraph, order_rng=None, rewrite_rng=None):
     g = CLS[m.kind]()
     atoms = list(m.atoms)
     bonds = list(m.bonds)
-    if order_rng is not None:
+    if order_rng == "element":
+        # as read from a file that lists the atoms element by element
+        atoms.sort(key=lambda a: (m.atoms[a]["atom_type"], a))
+        bonds.sort(key=lambda b: tuple(sorted(b)))
+        order_rng = None
+    elif order_rng is not None:
         atoms.sort()
         bonds.sort(key=lambda b: tuple(sorted(b)))
         order_rng.shuffle(atoms)
